@@ -240,7 +240,15 @@ fn gen_sc(rng: &mut Rng, flavour: u8) -> Sc {
         fields.insert(k.clone(), if by_label { Pos::Label(l.clone()) } else { Pos::Index(i + 1) });
     }
     if template_payee {
-        fields.insert("payee".to_string(), Pos::Template("{category} - {note}".to_string()));
+        // keys by field name, by one-based column index, or mixed: all mean the same cells
+        let ci = columns.iter().position(|(k, _)| k == "category");
+        let ni = columns.iter().position(|(k, _)| k == "note");
+        let t = match (rng.below(3), ci, ni) {
+            (0, Some(c), Some(n)) => format!("{{{}}} - {{{}}}", c + 1, n + 1),
+            (1, Some(c), _) => format!("{{{}}} - {{note}}", c + 1),
+            _ => "{category} - {note}".to_string(),
+        };
+        fields.insert("payee".to_string(), Pos::Template(t));
     }
     let delimiter = *rng.pick(&[',', ',', '\t', ';']);
     let n_head = rng.usize(3);
@@ -326,9 +334,10 @@ fn gen_sc(rng: &mut Rng, flavour: u8) -> Sc {
     let mut docs: Vec<Doc> = Vec::new();
     if flavour == 17 {
         // layered documents: the shortest matching path carries the required settings
-        // "okane/2024" ties with "bank/okane", "/bank" with the base's "bank/" and "stmt.csv" with
+        // "oka/", "2024/" and "in/ban/" do not occur in the statement's path, although they would without
+        // their trailing slash; "okane/2024" ties with "bank/okane", "/bank" with the base's "bank/" and "stmt.csv" with
         // nothing that applies: documents with equally long paths all take part, in either order
-        let more_paths = ["bank/okane", "okane/2024-", "2024-stmt.csv", "in/bank/okane/2024-stmt", "nomatch/", "other.csv", "okane/2023", "okane/2024", "/bank", "stmt.csv"];
+        let more_paths = ["bank/okane", "okane/2024-", "2024-stmt.csv", "in/bank/okane/2024-stmt", "nomatch/", "other.csv", "okane/2023", "okane/2024", "/bank", "stmt.csv", "oka/", "2024/", "in/ban/"];
         let mut chosen: Vec<&str> = Vec::new();
         for p in more_paths {
             if rng.chance(1, 3) {
@@ -405,7 +414,8 @@ fn gen_sc(rng: &mut Rng, flavour: u8) -> Sc {
     for _ in 0..n_stmts {
         let mut recs = Vec::new();
         for _ in 0..1 + rng.usize(6) {
-            date = date.plus_days(rng.below(4) as i64);
+            // value dates are mostly, not always, in booking order: the statement's order is what counts
+            date = if rng.chance(1, 10) { date.plus_days(-1 - rng.below(2) as i64) } else { date.plus_days(rng.below(4) as i64) };
             let row_com = if has_commodity_col { Some(COMMODITIES[rng.usize(COMMODITIES.len())].0.to_string()) } else { None };
             let com = row_com.clone().unwrap_or_else(|| primary.to_string());
             let mut amount = small_amount(rng, dp);
